@@ -12,9 +12,16 @@ import (
 	"github.com/microsoft/yardl/tooling/internal/validation"
 )
 
+// A computed field is resolved per record: the instantiations of a generic record share their
+// ComputedField nodes but not the types of their fields
+type rewrittenFieldKey struct {
+	record *RecordDefinition
+	field  *ComputedField
+}
+
 type ComputedFieldScope struct {
 	Record          *RecordDefinition
-	RewrittenFields map[*ComputedField]*ComputedField
+	RewrittenFields map[rewrittenFieldKey]*ComputedField
 	CurrentFields   []*ComputedField
 	Variables       []*DeclarationPattern
 }
@@ -34,13 +41,13 @@ func resolveComputedFields(env *Environment, errorSink *validation.ErrorSink) *E
 			}
 			scope := ComputedFieldScope{
 				Record:          t,
-				RewrittenFields: make(map[*ComputedField]*ComputedField),
+				RewrittenFields: make(map[rewrittenFieldKey]*ComputedField),
 			}
 
 			return self.DefaultRewrite(node, &scope)
 		case *ComputedField:
 
-			if rewritten, ok := context.RewrittenFields[t]; ok {
+			if rewritten, ok := context.RewrittenFields[rewrittenFieldKey{context.Record, t}]; ok {
 				return rewritten
 			}
 
@@ -59,7 +66,7 @@ func resolveComputedFields(env *Environment, errorSink *validation.ErrorSink) *E
 
 			// The variables declared by a switch case that references this field are not in scope in its body
 			rewritten := self.DefaultRewrite(node, &ComputedFieldScope{context.Record, context.RewrittenFields, append(context.CurrentFields, t), nil})
-			context.RewrittenFields[t] = rewritten.(*ComputedField)
+			context.RewrittenFields[rewrittenFieldKey{context.Record, t}] = rewritten.(*ComputedField)
 			return rewritten
 		case *TypeConversionExpression:
 			t = self.DefaultRewrite(t, context).(*TypeConversionExpression)
